@@ -97,6 +97,8 @@ fn restrict_end(e: &End, keys: &[String]) -> End {
 pub fn run_case(out: &mut Out, kind: &str, c: &CallCase) {
     let seen = Arc::new(Mutex::new(Seen::NotCalled));
     let h = H { handler: Arc::new(c.handler.clone()), seen: seen.clone(), reads: c.reads, sv: Arc::new(c.sv.clone()) };
+    POLLED_AFTER_END.store(0, std::sync::atomic::Ordering::SeqCst);
+    STRICT_PANICS.store(false, std::sync::atomic::Ordering::SeqCst);
     let rt = tokio::runtime::Builder::new_current_thread().enable_time().build().unwrap();
     let res = rt.block_on(async { tokio::time::timeout(Duration::from_secs(20), one_call(c, h)).await });
     drop(rt);
@@ -119,6 +121,8 @@ pub fn run_case(out: &mut Out, kind: &str, c: &CallCase) {
         Ok(Err(e)) => (Tr::L(vec![Tr::L(vec![Tr::n(9u8)]), Tr::L(vec![Tr::n(9u8)])]), Some(e)),
         Ok(Ok(r)) => {
             let o = if in_domain(c) { judge(c, &r, &seen) } else { None };
+            let n = POLLED_AFTER_END.load(std::sync::atomic::Ordering::SeqCst);
+            let o = if o.is_none() && n > 0 { Some(format!("a message stream was polled {} time(s) after it had returned None", n)) } else { o };
             let o = if kind.ends_with("client_max_encoding") { o.map(|w| format!("F-C06b: over a real HTTP/2 connection {}", w)) } else { o };
             let rr = match &r {
                 ClientResult::Err(s) => ClientResult::Err(restrict_status(s, &keys)),
